@@ -121,3 +121,9 @@ impl SimAsyncHandleMeta for tokio_fs::File {
         Box::pin(self.metadata())
     }
 }
+
+impl SimAsyncHandleMeta for tokio_fs::DirEntry {
+    fn sim_metadata(&self) -> Pin<Box<dyn Future<Output = io::Result<std_fs::Metadata>> + Send + '_>> {
+        Box::pin(self.metadata())
+    }
+}
